@@ -1,5 +1,6 @@
 import VelaVerif.Model.TfliteText
 import VelaVerif.Model.TfliteWriter
+import VelaVerif.Model.TfliteReader
 import VelaVerif.Handlers.Util
 /-!
 Requests of the TFLite writer / reader models (syntax: Model/TfliteText.lean).
@@ -8,12 +9,26 @@ Requests of the TFLite writer / reader models (syntax: Model/TfliteText.lean).
                           answer `same <tensors> <operators>` | `differ <path> model=<piece> real=<piece>` | `err:<kind>`
 `wmodel <desc>`           the model's file as text (or `err:<kind>`)
 `wsame <model> <model> …` are the walked files equal? `same <n>` | `differ <k> <path> first=<piece> other=<piece>`
+`wwriteerr <kind> <desc>` the real writer raised <kind> on the description: `same` when the model raises the same kind, else `differ …`
+`wread <model> <desc>`    the model's graph for the file vs the description of what the real reader built; compared after
+                          blanking, on both sides, what the reader model does not claim: option payloads, `input_tensors`, the
+                          data of reshaped clones (length kept), the version string; `same <tensors> <operators>` | `differ …` | `err:<kind>`
+`wreaderr <kind> <model>` the real reader raised <kind>: `same` / `differ model=…`
 -/
 namespace VelaVerif.Handlers.Tflite
 open VelaVerif VelaVerif.Tflite
 
 def showDiff (r : String × String × String) (a b : String) : String :=
   s!"differ {if r.1 == "" then "/" else r.1} {a}={r.2.1.take 80} {b}={r.2.2.take 80}"
+
+def blankPayload : Payload := { optType := 0, opts := none, custom := none, customFormat := 0 }
+
+/-- what the reader correspondence does not compare (see the header) -/
+def normRead (d : Desc) : Desc :=
+  { d with
+    version := [],
+    tensors := d.tensors.map fun t => if t.src.isSome then { t with values := t.values.map fun v => Data.digest v.len "clone" } else t,
+    subgraphs := d.subgraphs.map fun s => { s with inputTensors := [], ops := s.ops.map fun o => { o with payload := blankPayload } } }
 
 def handle : List String → Option String
   | "wwrite" :: toks =>
@@ -39,6 +54,40 @@ def handle : List String → Option String
         | .error e => some ("err:" ++ e)
         | .ok m => some (encModelT m).text
       | none => some "err:bad-desc"
+    | _ => some "err:bad-request"
+  | "wwriteerr" :: kind :: toks =>
+    match Sx.parseAll toks with
+    | some [dx] =>
+      match decDesc dx with
+      | some d =>
+        match Writer.write d with
+        | .error e => if e == kind then some "same" else some s!"differ model=err:{e} real=err:{kind}"
+        | .ok _ => some s!"differ model=ok real=err:{kind}"
+      | none => some "err:bad-desc"
+    | _ => some "err:bad-request"
+  | "wread" :: toks =>
+    match Sx.parseAll toks with
+    | some [tx, dx] =>
+      match decModelT tx, decDesc dx with
+      | some t, some d =>
+        match Reader.read [] t with
+        | .error e => some ("err:" ++ e)
+        | .ok r =>
+          match Sx.diff "" (encDesc (normRead r)) (encDesc (normRead d)) with
+          | none => some s!"same {r.tensors.length} {(r.subgraphs.map (·.ops.length)).sum}"
+          | some x => some (showDiff x "model" "real")
+      | none, _ => some "err:bad-model"
+      | _, none => some "err:bad-desc"
+    | _ => some "err:bad-request"
+  | "wreaderr" :: kind :: toks =>
+    match Sx.parseAll toks with
+    | some [tx] =>
+      match decModelT tx with
+      | some t =>
+        match Reader.read [] t with
+        | .error e => if e == kind then some "same" else some s!"differ model=err:{e} real=err:{kind}"
+        | .ok _ => some s!"differ model=ok real=err:{kind}"
+      | none => some "err:bad-model"
     | _ => some "err:bad-request"
   | "wsame" :: toks =>
     match Sx.parseAll toks with
